@@ -115,8 +115,11 @@ theorem C03_checkers_sound (F t : Int) (ss : List Seg) :
     (segsTileB F ss = true ↔ SegsTile F ss) ∧ (scoresSumB ss t = true ↔ ScoresSum ss t) :=
   ⟨segsTileB_iff F ss, scoresSumB_iff ss t⟩
 
-/-- **C03, frame accounting carried by this model.**  No entry, hence no segment end, lies at or
-beyond the number of frames searched, and segment ends are entry frames: `ef ≤ cur − 1`. -/
+/-- **C03, frame accounting carried by this model.**  No segment ends at or beyond the number of
+frames searched: `ef < cur` — except that the start-of-utterance marker of an utterance with no frame
+at all (`cur = 0`) sits at frame 0 (hence `max cur 1`).  The other half of the accounting (returns of
+the processing calls add up to `cur` and to the frames the front end produced) is about
+`decoder.c`/`acmod.c` (M5, C07) and is checked on the implementation for every utterance. -/
 theorem C03_ends_within_frames (wf : WFHist g h cur) (shift : Nat) (final : Bool) {ss : List Seg}
     (hs : segs shift g h cur final = some ss) : ∀ s ∈ ss, s.ef < max cur 1 := by
   intro s hm
